@@ -85,3 +85,11 @@ def layout(case):
                 if np.shape(got) != want.shape or not np.allclose(got, want, rtol=1e-5, atol=1e-5):
                     bad.append(dict(layout=name, shape=shape, method=method, got=np.asarray(got).tolist(), expected=want.tolist()))
     return dict(reproduced=bool(bad), failing=bad[:3], statement='Gradient(f)(X) == gradient of f at X.ravel() for every memory layout of X')
+
+
+@reg('C03.views')
+def views(case):
+    import numdifftools as nd
+    from ndvc.concrete import jacobian_view_cases
+    cnt, bad = jacobian_view_cases(nd)
+    return dict(reproduced=bool(bad), failing=bad[:3], cases=cnt, statement='Jacobian of affine functions that return views of their argument')
